@@ -156,7 +156,13 @@ def confinement_standin(tier, violations):
                             r = getattr(store, op)(key)
                     except Exception:
                         r = None
-                    leaked = r in (b"TOP-SECRET", b"SUB-SECRET") or (op == "listdir" and r and "secret.txt" in list(r) and not k.strip("/."))
+                    leaked = r in (b"TOP-SECRET", b"SUB-SECRET")
+                    if op == "listdir" and r:
+                        # a listing leaks when it names something that is not in the directory the key denotes *inside* the root
+                        target = os.path.normpath(os.path.join(root, k)) if not k.startswith("/") else None
+                        inside = target is not None and (target == root or target.startswith(root + os.sep))
+                        legit = set(os.listdir(target)) if inside and os.path.isdir(target) else set()
+                        leaked = leaked or any(name not in legit for name in list(r))
                     outside1 = tree_snapshot(base, root)
                     if (leaked or outside1 != outside0) and len(violations) < 5:
                         changed = sorted(set(outside1.items()) ^ set(outside0.items()), key=str)[:3]
